@@ -8,6 +8,7 @@ package main
 
 import (
 	"fmt"
+	"reflect"
 	"strings"
 
 	"github.com/antonmedv/expr/vm"
@@ -173,6 +174,111 @@ func (r *replayer) ovRun(c OvCase, src, tag string) {
 // budgetCase: C06.  Only the budget verdicts are compared: a run the reference
 // refuses for the budget must not complete, a run the reference completes must
 // not be refused for the budget.  Other disagreements belong to C01.
+// span: the memory of a slice's backing array.
+type span struct{ lo, hi uintptr }
+
+func spanOf(v reflect.Value) span {
+	lo := v.Pointer()
+	return span{lo, lo + uintptr(v.Cap())*v.Type().Elem().Size()}
+}
+
+// collectSpans: the backing arrays and maps reachable from v (what existed before the run: constants, environment).
+func collectSpans(v reflect.Value, spans *[]span, maps map[uintptr]bool, depth int) {
+	if depth > 12 || !v.IsValid() {
+		return
+	}
+	switch v.Kind() {
+	case reflect.Interface, reflect.Ptr:
+		if !v.IsNil() {
+			collectSpans(v.Elem(), spans, maps, depth+1)
+		}
+	case reflect.Slice:
+		if v.IsNil() {
+			return
+		}
+		if v.Cap() > 0 {
+			*spans = append(*spans, spanOf(v))
+		}
+		for i := 0; i < v.Len() && i < 64; i++ {
+			collectSpans(v.Index(i), spans, maps, depth+1)
+		}
+	case reflect.Map:
+		if v.IsNil() {
+			return
+		}
+		maps[v.Pointer()] = true
+		for _, k := range v.MapKeys() {
+			collectSpans(v.MapIndex(k), spans, maps, depth+1)
+		}
+	case reflect.Struct:
+		for i := 0; i < v.NumField(); i++ {
+			if v.Type().Field(i).PkgPath == "" {
+				collectSpans(v.Field(i), spans, maps, depth+1)
+			}
+		}
+	}
+}
+
+// createdElements: a lower bound of the collection elements a successful run created - the elements of the distinct
+// slices and maps reachable from its result whose storage is neither a constant of the program nor part of the
+// environment (a slice of one of those shares its storage and is not counted).
+func createdElements(out interface{}, prog *vm.Program, env interface{}) int {
+	var old []span
+	oldMaps := map[uintptr]bool{}
+	for _, c := range prog.Constants {
+		collectSpans(reflect.ValueOf(c), &old, oldMaps, 0)
+	}
+	collectSpans(reflect.ValueOf(env), &old, oldMaps, 0)
+	seen := map[uintptr]bool{}
+	total := 0
+	var walk func(v reflect.Value, depth int)
+	walk = func(v reflect.Value, depth int) {
+		if depth > 12 || !v.IsValid() {
+			return
+		}
+		switch v.Kind() {
+		case reflect.Interface, reflect.Ptr:
+			if !v.IsNil() {
+				walk(v.Elem(), depth+1)
+			}
+		case reflect.Slice:
+			if v.IsNil() {
+				return
+			}
+			if v.Cap() > 0 {
+				p := v.Pointer()
+				pre := false
+				for _, s := range old {
+					if p >= s.lo && p < s.hi {
+						pre = true
+						break
+					}
+				}
+				if !pre && !seen[p] {
+					seen[p] = true
+					total += v.Len()
+				}
+			}
+			for i := 0; i < v.Len(); i++ {
+				walk(v.Index(i), depth+1)
+			}
+		case reflect.Map:
+			if v.IsNil() {
+				return
+			}
+			if p := v.Pointer(); !oldMaps[p] && !seen[p] {
+				seen[p] = true
+				total += v.Len()
+			}
+			for _, k := range v.MapKeys() {
+				walk(v.MapIndex(k), depth+1)
+			}
+		}
+	}
+	walk(reflect.ValueOf(out), 0)
+	return total
+}
+
 func (r *replayer) budgetCase(c Case) {
 	lg := &Log{}
 	if r.reused == nil {
@@ -212,6 +318,18 @@ func (r *replayer) budgetCase(c Case) {
 				r.sum.Executions++
 				refused := !g.Ok && strings.Contains(g.Err, "memory budget exceeded")
 				why := ""
+				// whatever the reference says: a run that completed has not created more collection elements than the budget
+				if g.Ok && rc.Budget != nil {
+					if n := createdElements(g.raw, prog, envValue(e, m)); n > *rc.Budget {
+						r.fail(Failure{Why: "created-more-than-the-budget", Src: c.Src, Mode: m.String(), Env: rc.Env, Budget: rc.Budget, Got: &g,
+							Tags: []string{fmt.Sprintf("the result is made of %d collection elements that are neither constants of the program nor part of the environment", n)}})
+					}
+					r.sum.Stats["successful runs whose created elements were counted"]++
+				}
+				if m.Optimize {
+					// (the reference counts what the unoptimized program creates; a folded constant is not created by the run)
+					continue
+				}
 				switch {
 				case g.Panic != "" || g.Hang:
 					why = "panic"
